@@ -242,7 +242,7 @@ pub fn stream_exact_read_from_mem() {
     let size = fx.size;
     let mut src: &[u8] = &data[..dl];
     let r: Result<usize> = if exact { fx.slice().read_exact_volatile_from(addr, &mut src, count).map(|_| count) } else { fx.slice().read_volatile_from(addr, &mut src, count) };
-    kani::cover!(!exact && addr > 0 && addr < size && count > size - addr && dl > size - addr);
+    kani::cover!(addr > 0 && addr < size && count <= size - addr && count > dl);
     let rest = src.len();
     if !exact {
         if addr > size { assert!(r.is_err(), "C04,C01: a stream read starting past the end must fail"); fx.untouched(); }
